@@ -62,7 +62,7 @@ func (p *c05) Cases(tier string, emit func(interface{})) {
 		for _, r := range single {
 			emit(c05Case{Kind: "range", Base: it.name, Levels: []string{r}})
 		}
-		chains := [][]string{{"0..100", "0..10"}, {"min..100", "5..50"}, {"0..10|20..30", "5..10|20..25"}, {"0..100", ""}, {"0..100", "10..50", "20..30"}, {"0..100", "", "20..30"}, {"10..max", "min..20"}}
+		chains := [][]string{{"0..100", "0..10"}, {"min..100", "5..50"}, {"0..10|20..30", "5..10|20..25"}, {"0..100", ""}, {"0..100", "10..50", "20..30"}, {"0..100", "", "20..30"}, {"10..max", "min..20"}, {"0..100", "10..90", "20..80", "30..70"}, {"0..100", "10..90", "20..80", "30..70", "40..60"}}
 		for _, ch := range chains {
 			emit(c05Case{Kind: "range", Base: it.name, Levels: ch})
 		}
@@ -71,7 +71,7 @@ func (p *c05) Cases(tier string, emit func(interface{})) {
 		emit(c05Case{Kind: "range", Base: "decimal64", Levels: []string{r}})
 	}
 	emit(c05Case{Kind: "range", Base: "decimal64", Levels: []string{"0..10", "2.5..5"}})
-	for _, l := range [][]string{{"2"}, {"1..3"}, {"0..2|5"}, {"min..2"}, {"2..max"}, {"0..4", "1..2"}, {"1..5", "", "2..3"}} {
+	for _, l := range [][]string{{"2"}, {"1..3"}, {"0..2|5"}, {"min..2"}, {"2..max"}, {"0..4", "1..2"}, {"1..5", "", "2..3"}, {"0..6", "1..5", "2..4", "3"}} {
 		emit(c05Case{Kind: "length", Base: "string", Levels: l})
 	}
 	for _, pt := range [][]string{{"[0-9]+"}, {"a*"}, {"[a-c]{2}"}, {"[a-z]+&.*b.*"}, {"![0-9]+"}, {"[a-z]+", "a.*"}, {"[a-z]+", "", ".*z"}, {"a|b"}} {
@@ -175,6 +175,17 @@ func c05Module(c c05Case) (text string) {
 			ty = fmt.Sprintf("type %s { %s }", prev, last)
 		}
 		fmt.Fprintf(&sb, "  leaf x { %s }\n  leaf-list xs { %s }\n", ty, ty)
+		// a sibling declared later narrows the same typedef differently (it restates the nearest
+		// range/length of the chain, which is wider than x's): restrictions of one leaf must not
+		// leak into another leaf derived from the same typedef.
+		if c.Kind != "pattern" && last != "" {
+			for i := len(c.Levels) - 2; i >= 0; i-- {
+				if c.Levels[i] != "" {
+					fmt.Fprintf(&sb, "  leaf sib { type %s { %s } }\n", prev, restr(c.Levels[i]))
+					break
+				}
+			}
+		}
 	case "enum":
 		sb.WriteString("  typedef e0 { type enumeration { enum zero; enum one; enum five { value 5; } } }\n  leaf x { type e0; }\n  leaf-list xs { type e0; }\n")
 	case "bits":
